@@ -1348,6 +1348,67 @@ pub fn oracle_c11(rng: &mut Rng, tier: &str) -> Report {
     rep
 }
 
+// ------------------------------------------------------------------ C12: buffers at unaligned addresses
+
+/// Valid and corrupted cache files placed at every address residue 1..7 (mod 8): the reader sees
+/// every section shifted, i.e. arbitrary field values; whatever `parse` accepts must answer every
+/// query without panicking.
+pub fn oracle_c12(rng: &mut Rng, tier: &str) -> Report {
+    let mut rep = Report::new();
+    let n = if thorough(tier) { 3000 } else { 250 };
+    for i in 0..n {
+        let text = if i % 6 == 0 { gen_mapping(rng, &Cfg::hostile()).text } else { domain_mapping(rng, &Cfg::domain()) };
+        let u = universe(&text);
+        let bytes = proto::cur::write_cache_safe(&text);
+        let qs = query_universe(rng, &u, 2);
+        let mut bufs = vec![bytes.clone()];
+        bufs.extend(crate::gens::corrupt_buffers(rng, &bytes, 3));
+        // declared string bytes lowered, so that the shifted reading still fits and is accepted
+        if bytes.len() >= 24 {
+            let sb = u32::from_le_bytes([bytes[20], bytes[21], bytes[22], bytes[23]]);
+            for v in [0u32, sb.saturating_sub(4), sb.saturating_sub(8), sb / 2] {
+                let mut b = bytes.clone();
+                b[20..24].copy_from_slice(&v.to_le_bytes());
+                bufs.push(b);
+            }
+        }
+        for b in &bufs {
+            let words = (b.len() + 7) / 8 + 2;
+            let store: &'static mut [u64] = Box::leak(vec![0u64; words].into_boxed_slice());
+            let base = store.as_mut_ptr() as *mut u8;
+            for shift in 1..8usize {
+                unsafe {
+                    std::ptr::write_bytes(base, if shift % 2 == 0 { 0 } else { 0xff }, words * 8);
+                    std::ptr::copy_nonoverlapping(b.as_ptr(), base.add(shift), b.len());
+                }
+                // (the bytes after the file are part of the allocation, never of the slice)
+                let p: &'static [u8] = unsafe { std::slice::from_raw_parts(base.add(shift) as *const u8, b.len()) };
+                rep.checks += 1;
+                match catch_unwind(AssertUnwindSafe(|| proto::cur::parse_cache(p))) {
+                    Err(_) => rep.fail("parse panicked on a buffer at an unaligned address", vec![format!("BUF {}", hx(b)), format!("# placed at an address = {} (mod 8)", shift)], String::new()),
+                    Ok(Err(_)) => rep.count("unaligned_rejected"),
+                    Ok(Ok(pc)) => {
+                        rep.count("unaligned_accepted");
+                        rep.nontrivial += 1;
+                        let got = cache_answers_cur(&pc, &qs);
+                        if let Some(k) = got.iter().position(|a| a == "PANIC") {
+                            rep.fail("a query panicked on a buffer accepted at an unaligned address",
+                                     vec![format!("BUF {}", hx(b)), format!("# placed at an address = {} (mod 8)", shift), qs[k].op(true)], String::new());
+                        }
+                        // (`test()` asserts by design, and the `display()` debug view unwraps every string of a file
+                        // that fails that self-test: neither is one of the property's queries)
+                        if catch_unwind(AssertUnwindSafe(|| { let _ = format!("{:?}", pc); })).is_err() {
+                            rep.fail("debug printing panicked on a buffer accepted at an unaligned address",
+                                     vec![format!("BUF {}", hx(b)), format!("# placed at an address = {} (mod 8)", shift)], String::new());
+                        }
+                    }
+                }
+            }
+        }
+    }
+    rep
+}
+
 // ------------------------------------------------------------------ C18: inputs at size thresholds
 
 /// SHA-1 (FIPS 180-4), written here so that the expectation does not come from the crate's own
@@ -2376,6 +2437,7 @@ pub fn run_oracle(prop: &str, tier: &str, seed: u64) -> Option<Report> {
         }
         "C10" => oracle_c10(&mut rng, tier),
         "C11" => oracle_c11(&mut rng, tier),
+        "C12" => oracle_c12(&mut rng, tier),
         "C14" => oracle_c14(seed, tier),
         "C18" => oracle_c18(tier),
         "C15" => oracle_c15(&mut rng, tier),
